@@ -331,6 +331,17 @@ def subscript_value(interp, o, idx, st):
             return ListVal(o.items[lo:hi])
         xi = to_x(i)
         if xi is None: return Opaque("list index")
+        # element written symbolically earlier (L_arr[j] = v): the latest matching store wins
+        for rec in reversed(getattr(o, "sym_stores", [])):
+            if len(rec) == 2:
+                si, sv = rec
+                if isinstance(si, X) and si.eq(xi): return sv
+            elif len(rec) == 4:
+                sv_, sc_, si, sv = rec
+                if isinstance(si, X) and si.eq(X.var(sv_)): return subst_val(sv, {sv_: xi})
+        tr = getattr(o, "trial", None)
+        if tr and not tr[2] and len(o.items) == tr[1] + 1 and (xi - tr[1]).eq(X.var(tr[0])):
+            return o.items[tr[1]]      # the element appended in the current (summarised) iteration
         k = xi.as_int()
         if k is not None and not o.per_iter:
             try: return o.items[k]
